@@ -34,6 +34,7 @@ type spliceCtx struct {
 	callerSrc  []byte
 	calleeDecl *ast.FuncDecl // for a local closure: a synthetic declaration (Name = the variable, Type/Body = the literal's)
 	closure    bool
+	sig        *types.Signature // set for an immediately-invoked literal (no defining identifier)
 	calleeInfo *types.Info
 	calleeSrc  []byte
 	calleeFile *ast.File
@@ -116,7 +117,12 @@ func (sc *spliceCtx) splice(call *ast.CallExpr) ([]byte, error) {
 	if fd.Body == nil {
 		return nil, fmt.Errorf("no body")
 	}
-	sig, okSig := sc.calleeInfo.Defs[fd.Name].Type().(*types.Signature)
+	sig, okSig := sc.sig, sc.sig != nil
+	if !okSig {
+		if o := sc.calleeInfo.Defs[fd.Name]; o != nil {
+			sig, okSig = o.Type().(*types.Signature)
+		}
+	}
 	if !okSig {
 		return nil, fmt.Errorf("not a function")
 	}
@@ -176,7 +182,9 @@ func (sc *spliceCtx) splice(call *ast.CallExpr) ([]byte, error) {
 		pnames = append(pnames, name)
 		pargs = append(pargs, argText)
 	}
-	text := func(n ast.Node, src []byte, base func(token.Pos) int) string { return string(src[base(n.Pos()):base(n.End())]) }
+	text := func(n ast.Node, src []byte, base func(token.Pos) int) string {
+		return string(src[base(n.Pos()):base(n.End())])
+	}
 	cbase := func(p token.Pos) int { return sc.fset.Position(p).Offset }
 	usedParams := map[string]bool{}
 	ast.Inspect(fd.Body, func(n ast.Node) bool {
@@ -243,9 +251,18 @@ func (sc *spliceCtx) splice(call *ast.CallExpr) ([]byte, error) {
 	}
 	// identifier capture: package-level names the body uses must mean the same at the call site
 	var capErr error
+	selNames := map[*ast.Ident]bool{} // x.Sel of a field or method selection: not looked up by scope
+	ast.Inspect(fd.Body, func(n ast.Node) bool {
+		if se, ok := n.(*ast.SelectorExpr); ok {
+			if _, isSel := sc.calleeInfo.Selections[se]; isSel {
+				selNames[se.Sel] = true
+			}
+		}
+		return true
+	})
 	ast.Inspect(fd.Body, func(n ast.Node) bool {
 		id, ok := n.(*ast.Ident)
-		if !ok || capErr != nil {
+		if !ok || capErr != nil || selNames[id] {
 			return true
 		}
 		obj := sc.calleeInfo.Uses[id]
@@ -507,7 +524,12 @@ func (sc *spliceCtx) spliceGo(call *ast.CallExpr) ([]byte, error) {
 	if fd.Body == nil {
 		return nil, fmt.Errorf("no body")
 	}
-	sig, okSig := sc.calleeInfo.Defs[fd.Name].Type().(*types.Signature)
+	sig, okSig := sc.sig, sc.sig != nil
+	if !okSig {
+		if o := sc.calleeInfo.Defs[fd.Name]; o != nil {
+			sig, okSig = o.Type().(*types.Signature)
+		}
+	}
 	if !okSig {
 		return nil, fmt.Errorf("not a function")
 	}
@@ -519,9 +541,18 @@ func (sc *spliceCtx) spliceGo(call *ast.CallExpr) ([]byte, error) {
 	// imports and package-level names must mean the same at the call site
 	var capErr error
 	check := func(n ast.Node) {
+		selNames := map[*ast.Ident]bool{}
+		ast.Inspect(n, func(x ast.Node) bool {
+			if se, ok := x.(*ast.SelectorExpr); ok {
+				if _, isSel := sc.calleeInfo.Selections[se]; isSel {
+					selNames[se.Sel] = true
+				}
+			}
+			return true
+		})
 		ast.Inspect(n, func(x ast.Node) bool {
 			id, ok := x.(*ast.Ident)
-			if !ok || capErr != nil {
+			if !ok || capErr != nil || selNames[id] {
 				return true
 			}
 			obj := sc.calleeInfo.Uses[id]
@@ -597,7 +628,7 @@ func (sc *spliceCtx) spliceGo(call *ast.CallExpr) ([]byte, error) {
 	if fd.Type.Results != nil {
 		results = " " + string(sc.calleeSrc[fbase(fd.Type.Results.Pos()):fbase(fd.Type.Results.End())])
 	}
-	body := string(sc.calleeSrc[fbase(fd.Body.Lbrace):fbase(fd.Body.Rbrace)+1])
+	body := string(sc.calleeSrc[fbase(fd.Body.Lbrace) : fbase(fd.Body.Rbrace)+1])
 	repl := "func(" + params + ")" + results + " " + body + "(" + strings.Join(args, ", ") + ")"
 	from, to := cbase(call.Pos()), cbase(call.End())
 	return []byte(string(sc.callerSrc[:from]) + repl + string(sc.callerSrc[to:])), nil
